@@ -154,6 +154,9 @@ impl Ctx {
 }
 
 pub fn viol(class: &str, step: usize, detail: String) -> Violation {
+    // a broken konst can hand back a `&str` that is not valid UTF-8; formatting it smuggles the
+    // invalid bytes into this String. Replace them, so that reports and replay files stay valid.
+    let detail = String::from_utf8_lossy(detail.as_bytes()).into_owned();
     Violation {
         class: class.to_string(),
         step,
